@@ -207,14 +207,11 @@ def prune(sample: Data, start_nodes: torch.Tensor, radius=1) -> Data:
         raise ValueError("Sample is missing argument edge_index.")
 
     A = get_adjacency_matrix(sample)
-    if radius == 0:
-        D_sum = torch.eye(A.size(0))
-    else:
-        D = A.detach().clone()
-        D_sum = A.detach().clone()
-        for _ in range(radius - 1):
-            D = torch.matmul(D, A)
-            D_sum += D
+    D = torch.eye(A.size(0))
+    D_sum = torch.eye(A.size(0))
+    for _ in range(radius):
+        D = torch.matmul(D, A)
+        D_sum += D
     center_paths = D_sum[start_nodes].sum(axis=0)  # type: ignore
     reachable_nodes = torch.where(center_paths > 0)[0]
     node_map = {u: i for i, u in enumerate(reachable_nodes.tolist())}
